@@ -189,10 +189,26 @@ def _layout(ctx, sws):
                   "RFC 1035 4.1.1: %s is the 16-bit field at offset %d (found width %s value %s)" % (name, o, w, show(v)[:60] if v else None))
     ctx.check(got.get(2, (None,))[0] == 1 and got.get(3, (None,))[0] == 1, "R2", "header:flags@2,3", ctx.where(b), "")
 
+    # locals joined by plain copies stand for one variable (`let (n, cut) = helper(..)` leaves such chains behind once the helper
+    # has been inlined and its result tuple split)
+    parent = {}
+
+    def cls(x):
+        while parent.get(x, x) != x:
+            parent[x] = parent.get(parent[x], parent[x])
+            x = parent[x]
+        return x
+    for _bb, _i, _st in b.stmts():
+        _rv = _st.get("rv")
+        if _rv and _rv["k"] == "use" and len(_st["p"]) == 1 and op_place(_rv["op"]) and len(op_place(_rv["op"])) == 1:
+            x_, y_ = cls(_st["p"][0]), cls(op_place(_rv["op"])[0])
+            if x_ != y_ and b.local_ty(x_) == b.local_ty(y_) and b.local_ty(x_) in ("bool", "u16"):
+                parent[x_] = y_
     # ---- section loops
     loops = [cfg.natural_loop(e) for e in cfg.back_edges()]
     size_param = 2
     sections = []   # (section field, counter local, loop)
+    te_of = {}      # push call block -> the edges taken when its record did not fit
     trunc_local = None
     rr_calls = [(bb, tm) for bb, tm in b.calls() if (callee_name(tm) or "").endswith("::push_rr") and on_ret(tm, bb)]
     n_ok = 0
@@ -246,7 +262,7 @@ def _layout(ctx, sws):
         flags = [(b2, s2) for b2, i2, s2 in b.stmts() if "rv" in s2 and s2["rv"]["k"] == "use" and s2["rv"]["op"].get("k", {}).get("bool") is True and
                  len(s2["p"]) == 1 and edge_dominated(cfg, te, b2)]
         if flags:
-            trunc_local = flags[0][1]["p"][0]
+            trunc_local = cls(flags[0][1]["p"][0])
         leaves = all(_leaves_loop(cfg, tgt, loop) for _, tgt in te)
         ctx.check(tr_ok, "R3", "truncation:%s:truncate-to-saved-offset" % tag, where, "on overflow the buffer must be cut back to the length saved before this record was pushed")
         ctx.check(bool(flags), "R3", "truncation:%s:sets-flag" % tag, where, "")
@@ -257,9 +273,10 @@ def _layout(ctx, sws):
             if "rv" in s2 and s2["rv"]["k"] == "bin" and s2["rv"]["op"] == "AddWithOverflow" and edge_dominated(cfg, fe, b2) and b2 in loop:
                 pl = op_place(s2["rv"]["a"])
                 if pl and len(pl) == 1 and b.local_ty(pl[0]) == "u16" and s2["rv"]["b"].get("k", {}).get("int") == "1":
-                    cnt = pl[0]
+                    cnt = cls(pl[0])
         ctx.check(cnt is not None, "R3", "truncation:%s:counts-kept-records" % tag, where, "a record that fits increments the section's counter")
         sections.append((sect, cnt, loop, bb))
+        te_of[bb] = list(te)
         n_ok += 1
     ctx.floor("R3", "section loops", n_ok, 3)
     # later loops are skipped once truncated
@@ -273,10 +290,15 @@ def _layout(ctx, sws):
             for sbb, stm in b.terms():
                 if stm["k"] == "switch" and op_place(stm["discr"]) is not None:
                     st = single_def_stmt(T, stm["discr"], sbb, len(b.blocks[sbb]["stmts"]))
-                    if st and st["rv"]["k"] == "use" and op_place(st["rv"]["op"]) == (trunc_local,):
+                    if st and st["rv"]["k"] == "use" and op_place(st["rv"]["op"]) and len(op_place(st["rv"]["op"])) == 1 and cls(op_place(st["rv"]["op"])[0]) == trunc_local:
                         fe = [(sbb, tgt) for v, tgt in cfg.switch_edges(sbb) if v == 0]
                         if edge_dominated(cfg, fe, bb):
                             okk = True
+            if not okk:
+                # the same thing without a flag: from the point where an earlier section dropped a record, this section's
+                # push is out of reach
+                earlier = [x for x in order if x[3] != bb and bb in cfg.reachable_from(x[3]) and x[3] not in cfg.reachable_from(bb)]
+                okk = bool(earlier) and all(te_of.get(x[3]) and all(bb not in cfg.reachable_from(tgt) for _, tgt in te_of[x[3]]) for x in earlier)
             ctx.check(okk, "R3", "truncation:%s:skipped-after-truncation" % (sect or "section"), ctx.where(b), "once a record was dropped no later section may add records")
     # ---- R4: TC bit and R2: patches, under the flag
     flag_true = []
@@ -284,10 +306,11 @@ def _layout(ctx, sws):
         for sbb, stm in b.terms():
             if stm["k"] == "switch" and op_place(stm["discr"]) is not None:
                 st = single_def_stmt(T, stm["discr"], sbb, len(b.blocks[sbb]["stmts"]))
-                if st and st["rv"]["k"] == "use" and op_place(st["rv"]["op"]) == (trunc_local,):
+                if st and st["rv"]["k"] == "use" and op_place(st["rv"]["op"]) and len(op_place(st["rv"]["op"])) == 1 and cls(op_place(st["rv"]["op"])[0]) == trunc_local:
                     # the final test: dominated by all section loops' exits -> choose the one no loop block dominates... take all
                     flag_true.extend((sbb, tgt) for v, tgt in cfg.switch_edges(sbb) if v != 0)
     tc_ok = False
+    all_te = [e for es in te_of.values() for e in es]
     for bb, tm in b.calls():
         n = callee_name(tm) or ""
         if n.endswith("IndexMut<I>>::index_mut") and on_ret(tm, bb):
@@ -298,6 +321,11 @@ def _layout(ctx, sws):
                 for s2 in b.blocks[nb]["stmts"] if nb is not None else []:
                     if "rv" in s2 and s2["rv"]["k"] == "bin" and s2["rv"]["op"] == "BitOr" and s2["rv"]["b"].get("k", {}).get("int") == str(tables.DNS_FLAG1["tc"]):
                         tc_ok = edge_dominated(cfg, flag_true, bb) and not _later_section_flag_only(cfg, flag_true, bb, sections)
+                        if not tc_ok and all_te:
+                            # without a flag: the patch is out of reach unless a record was dropped, and cannot be avoided once one was
+                            rets = set(cfg.return_blocks())
+                            tc_ok = bb not in cfg.reachable_avoiding_edges(0, set(all_te)) and \
+                                all(not (rets & cfg.reachable_from(tgt, blocked=(bb,))) for _, tgt in all_te)
     ctx.check(tc_ok, "R4", "tc-bit-set-under-truncation-flag", ctx.where(b), "TC (0x02 of octet 2) must be OR-ed into the header exactly when records were dropped")
     # patches
     counter_of = {s[0]: s[1] for s in sections}
@@ -335,6 +363,7 @@ def _layout(ctx, sws):
             if y[0] == "call" and str(y[1]).endswith("to_be_bytes"):
                 pass
         cl = _counter_local_in(T, b, tm, bb)
+        cl = cls(cl) if cl is not None else None
         sect = [s for s, c in counter_of.items() if c is not None and c == cl]
         sect = sect[0] if sect else None
         width_ok = a is not None and e is not None and e - a == 2
@@ -343,7 +372,8 @@ def _layout(ctx, sws):
                       how, a, e, "grows by one octet per patch and every later field shifts" if (a is not None and e is not None and e - a == 1) else "is corrupted"))
         ctx.check(sect is not None and want_off.get(sect) == a, "R2", "patch@%s<-count(%s)" % (a, sect), where,
                   "the count of section `%s` belongs at offset %s" % (sect, want_off.get(sect)))
-        ctx.check(edge_dominated(cfg, flag_true, bb), "R2", "patch@%s:only-when-truncated" % a, where, "")
+        ctx.check(edge_dominated(cfg, flag_true, bb) or (bool(all_te) and bb not in cfg.reachable_avoiding_edges(0, set(all_te))), "R2",
+                  "patch@%s:only-when-truncated" % a, where, "")
     ctx.floor("R2", "header count patches", n, 3)
 
 
